@@ -220,6 +220,19 @@ func runC06(w *vx.W) {
 			}
 		}
 	}
+	// valid strings that end in, start with or consist of U+FFFD (the replacement character is text like any other)
+	for _, gs := range genSlots() {
+		for _, e := range prof().byMesg[gs.Mesg] {
+			if e.Base != fitmodel.String || e.Array {
+				continue
+			}
+			for vi := 20; vi <= 22; vi++ {
+				for c := 0; c < 2; c++ {
+					handle(genSpec{Slot: gs, Msgs: [][]genFieldSet{{{e.Slot, vi}}}, HdrCRC: c == 0, Big: c == 1, Desc: fmt.Sprintf("field %d string with U+FFFD #%d", e.Num, vi)}, "strings-with-U+FFFD")
+				}
+			}
+		}
+	}
 	// local timestamps together with a UTC timestamp in the same message, three zone offsets
 	for _, gs := range genSlots() {
 		var tsSlot, localSlot = -1, -1
